@@ -103,6 +103,8 @@ def main():
     shutil.copy(demo, os.path.join(dst, "demo.py"))
     meta.update({"breaks_property": pid, "verification": res,
                  "what_was_run": f"scratch worktree of /repo HEAD: pytest tests (pass list compared), demo.py clean/patched; then " + ("the patch applied in a scratch worktree and `CGV_REPO=<worktree> ./check <id> --tier " + tier + "`" if use_wt else f"`git -C /repo apply patch.diff; ./check <id> --tier {tier}; git -C /repo checkout -- .`")})
+    prev = json.load(open(os.path.join(dst, "meta.json"))) if os.path.exists(os.path.join(dst, "meta.json")) else {}
+    meta["first_run_quick"] = prev.get("first_run_quick") or ("caught" if res["caught_by_own_check"] else "missed")
     json.dump(meta, open(os.path.join(dst, "meta.json"), "w"), indent=1)
     print(json.dumps({k: res[k] for k in ("property", "variant", "valid_seed", "caught_by_own_check", "caught_by")}, indent=0))
     for i, c in checks.items():
